@@ -6,12 +6,13 @@ package main
 
 import (
 	"fmt"
+	"sort"
 	"strings"
 )
 
 func init() {
 	register(&propDef{
-		ID: "C06",
+		ID:          "C06",
 		Explanation: "The compile-cases for if / switch / for / range / && / || are executed symbolically over sequences of opaque segments (symbolic lengths) and literal instructions. LAY-SHAPE checks each construct's emitted layout is one of the templates Go's semantics allows (e.g. `init cond JUMPFALSE then JUMP else`). LAY-TARGET checks, for every jump-class literal instruction, position+1+operand equals the intended boundary (spec table from the Go specification) as an identity of linear expressions in the segment lengths. LAY-REWRITE checks every body segment of a break/continue target has its placeholders rewritten to jumps landing on the intended boundary for every index n, that switch bodies (including the default body) rewrite break and leave continue to the enclosing loop, and that non-targets rewrite nothing. HND-BRANCH checks the branch handlers' polarity, pops and operand field (which field is added to the program counter) from their symbolic summaries. Not decided: `return` (a bare opcode), correctness of the opaque segments themselves (induction over nesting), that the parser builds children in the order the compile-case reads them (role table frozen from the Nud functions).",
 		Assumptions: []string{"child-index roles: if [init,cond,then,else]; for [init,cond,post,body]; range [key,value,item,body]; switch [tag,cases,default]; case [expr,body] — as built by ifNud/forNud/switchNud", "the dispatch loop adds 1 to the program counter after every handler"},
 		Quick: []ruleDef{
@@ -39,13 +40,13 @@ type layAtomInfo struct {
 }
 
 type layView struct {
-	Construct string
-	Label     string
-	Path      *layoutPath
-	Atoms     []layAtomInfo
-	Starts    []*linForm
-	Iter      *loopIter
-	Tail      *linForm // for iteration layouts: what follows the loop result in the final layout
+	Construct  string
+	Label      string
+	Path       *layoutPath
+	Atoms      []layAtomInfo
+	Starts     []*linForm
+	Iter       *loopIter
+	Tail       *linForm // for iteration layouts: what follows the loop result in the final layout
 	AllSpanned bool
 }
 
@@ -267,10 +268,10 @@ func ruleHndBranch(c *Ctx, r *R) {
 	}
 	// expected: per path (condition on Bool(Top1): T/F/-) -> pops, jump field
 	type exp struct {
-		cond  string
-		pop   int
-		push  int
-		jump  string
+		cond string
+		pop  int
+		push int
+		jump string
 	}
 	table := map[string][]exp{
 		"codeJump":      {{"-", 0, 0, "A"}},
@@ -663,8 +664,74 @@ func ruleLayOnce(c *Ctx, r *R) {
 		if len(reported) == 0 {
 			r.ok("once "+label, "no child compiled twice")
 		}
+		// ... and at least once: a child that one path of the case compiles is an operand; a path
+		// that emits code without compiling it must have looked at that child (it is absent, or
+		// of a kind that needs no code) — otherwise an operand with side effects is silently
+		// dropped (`make(map[int]int, size())` never called size)
+		if why, skip := everyExempt[label]; skip {
+			r.note("every %s: not judged (%s)", label, why)
+			continue
+		}
+		compiled := map[string]bool{}
+		perPath := make([]map[string]bool, len(paths))
+		for i, p := range paths {
+			perPath[i] = map[string]bool{}
+			for _, a := range m.live(p) {
+				if a.Seg == nil || a.Seg.Kind != "call" || a.Seg.Src == nil {
+					continue
+				}
+				src := a.Seg.Src
+				for src.Op == "call" && src.Name == "compiler.optimize" && len(src.Args) == 1 {
+					src = src.Args[0]
+				}
+				if src.Op != "call" || (src.Name != "compiler.compile" && src.Name != "compiler.compileAll") {
+					continue
+				}
+				child := src.Args[len(src.Args)-1].String()
+				if strings.HasPrefix(child, "tok.Tokens[") && !strings.Contains(child, "<") {
+					compiled[child] = true
+					perPath[i][child] = true
+				}
+			}
+		}
+		var kids []string
+		for k := range compiled {
+			kids = append(kids, k)
+		}
+		sort.Strings(kids)
+		for _, child := range kids {
+			bad := ""
+			for i, p := range paths {
+				if perPath[i][child] || len(m.live(p)) == 0 {
+					continue
+				}
+				conds := condStrings(p.St)
+				// the path knows something about the child itself, or about how many children there are
+				if strings.Contains(conds, child) || strings.Contains(conds, "len(tok.Tokens)") || strings.Contains(conds, "|tok.Tokens|") {
+					continue
+				}
+				bad = conds
+				break
+			}
+			key := "every " + label + " " + child
+			if bad != "" {
+				r.fail(key, c.Pos(sc.Clause), "compile(\""+label+"\") compiles the operand "+child+" on some paths but emits code without it on a path that never looked at it ("+bad+"): the operand is not evaluated there, so a call inside it never happens (Go evaluates every operand, e.g. the size of make(map[K]V, size()))")
+			} else {
+				r.ok(key, "compiled on every path that does not establish its absence")
+			}
+		}
 	}
 	if nCases < 30 {
 		r.undecided("once", "-", fmt.Sprintf("only %d compile-cases could be laid out", nCases))
 	}
+}
+
+// everyExempt: compile-cases whose paths legitimately differ in the children they compile
+// for a reason the path conditions do not spell out in terms of the child.
+var everyExempt = map[string]string{
+	"|=":     "the imported-global path takes tok.Tokens[0] as pkg.Name: its children are a package and a name, not operands",
+	".":      "the imported-global path takes the selector as pkg.Name: its left side is a package name, not an operand",
+	"const":  "a single value is compiled as tok.Tokens[1], several as its children",
+	"switch": "the tag and the clauses are compiled into variables whose emptiness the paths test",
+	"for":    "an absent condition compiles to no code, which the paths test",
 }
